@@ -265,7 +265,21 @@ func (dec *Decoder) DiscardLine() {
 	}
 	var text string
 	dec.Text(&text)
-	dec.CRLF()
+	if dec.CRLF() && dec.side == ConnSideServer && hasNonSyncLiteralSuffix(text) {
+		// The discarded line announces a non-synchronizing literal which
+		// nobody is going to read
+		dec.literal = true
+		dec.literalNonSync = true
+	}
+}
+
+// hasNonSyncLiteralSuffix checks whether a line ends with "{<digits>+}".
+func hasNonSyncLiteralSuffix(line string) bool {
+	if !strings.HasSuffix(line, "+}") {
+		return false
+	}
+	digits := strings.TrimRight(line[:len(line)-2], "0123456789")
+	return len(digits) < len(line)-2 && strings.HasSuffix(digits, "{")
 }
 
 func (dec *Decoder) DiscardValue() bool {
